@@ -545,6 +545,33 @@ func streamResolve(g *G) { // C02: add-only tables, several registration orders
 			}
 			rid++
 		}
+		if g.chance(0.15) {
+			// a parameter node with a literal tail ({id}/p100) is split INSIDE that tail by a later sibling ({id}/posts): the
+			// lower half (100) turns from a parameter node into a literal node; parameter siblings registered under the
+			// split point afterwards must still come after it (state kept per node must follow the change of kind)
+			pre := g.pick([]string{"/users/", "/", "/a/b/"})
+			tok := g.pick([]string{"{id}", "{id:\\d+}", "{id:digit}"})
+			g.routerLine(rid, routerOpt{name: "r", icpt: icptTable})
+			base := pre + tok + "/p"
+			pats := []string{base + "100", base + "osts", base + "{page:\\d+}"}
+			if g.chance(0.5) {
+				pats = append(pats, base+"{w:word}x", base+"{rest}")
+			}
+			if g.chance(0.5) { // >= 5 children under the split point: the first-byte index relies on literals coming first
+				pats = append(pats, base+"a", base+"b", base+"c")
+			}
+			for i, p := range pats {
+				g.emit("handle %d %s %d %s %s", rid, encB(p), i+1, "%-", encL([]string{"GET"}))
+			}
+			g.emit("routes %d", rid)
+			g.emit("dump %d", rid)
+			for _, tail := range []string{"100", "25", "osts", "1000", "10", "a", "b", "c", "abx", "zz", ""} {
+				path := pre + "7/p" + tail
+				g.serveLine("serve", rid, "GET", path, "", nil)
+				g.emit("spec-adm %d %s", rid, encB(path))
+			}
+			rid++
+		}
 		useIc := g.chance(0.5)
 		n := 2 + g.intn(10)
 		var pats []string
@@ -940,6 +967,57 @@ func (g *G) cleanedStubFamily(rid int) {
 	probe()
 }
 
+// reviveFamily: a route P is removed while its node stays in the tree (it has a child, or a Prefix.Clean below it left an
+// empty leaf), a name-only variant Q of P is registered (legitimate: P is not live), then P is registered again: P is now
+// identical to the live Q up to parameter names and must be rejected (variant A: Q is the ONLY route), nothing may change.
+// A lookup of the existing node by its text must not stand in for the ambiguity check.
+func (g *G) reviveFamily(rid int) {
+	g.routerLine(rid, routerOpt{name: "rev" + strconv.Itoa(rid), icpt: icptTable})
+	rule := g.pick([]string{"", ":\\d+", ":digit", ":[a-z]+"})
+	pre := g.pick([]string{"/u/", "/posts/", "/"})
+	mid := g.pick([]string{"/profile", "/comments", "", ".html", "/a"})
+	below := g.pick([]string{"/edit", "/{cid}", "/x/y", "/{k:\\d+}/z"})
+	mk := func(name string) string { return pre + "{" + name + rule + "}" + mid }
+	p, q := mk("id"), mk(g.pick([]string{"uid", "pid", "-id", "i"}))
+	h := 1
+	handle := func(pat string, ms ...string) {
+		g.emit("handle %d %s %d %%- %s", rid, encB(pat), h, encL(ms))
+		h++
+	}
+	probe := func() {
+		g.emit("routes %d", rid)
+		for _, pat := range []string{p, p + below} {
+			for _, m := range []string{"GET", "POST", "OPTIONS"} {
+				g.serveLine("serve", rid, m, g.instantiate(pat, []string{"5", "7", "9"}), "", nil)
+			}
+		}
+	}
+	handle(p, "GET")
+	handle(p+below, "GET")
+	probe()
+	g.emit("remove %d %s %%-", rid, encB(p))
+	onlyRoute := g.chance(0.5)
+	if onlyRoute { // the child goes too: an empty node (or nothing) is left, Q becomes the only route
+		if g.chance(0.5) {
+			g.emit("clean %d %s", rid, encB(p+"/"))
+			g.emit("clean %d %s", rid, encB(p+below[:1]))
+		} else {
+			g.emit("remove %d %s %%-", rid, encB(p+below))
+		}
+	}
+	probe()
+	handle(q, "GET")
+	probe()
+	handle(p, g.pick([]string{"GET", "POST"}), "PUT") // identical to the live q up to the parameter name
+	probe()
+	handle(p, "DELETE")
+	probe()
+	if !onlyRoute {
+		handle(p+below, "POST") // a further method on the live child is fine
+		probe()
+	}
+}
+
 func streamReject(g *G) { // C17
 	rid := 1
 	for !g.full() {
@@ -953,6 +1031,10 @@ func streamReject(g *G) { // C17
 		}
 		if g.chance(0.25) {
 			g.cleanedStubFamily(rid)
+			rid++
+		}
+		if g.chance(0.3) {
+			g.reviveFamily(rid)
 			rid++
 		}
 		if g.chance(0.4) {
